@@ -35,6 +35,11 @@ CFG = {
         "Swat4.C10.facts_batches_atomic",
         "Swat4.C10.facts_no_bare_pipeline_in_writer",
         "Swat4.C10.facts_lock_ttl",
+        "Swat4.C10.expire_frees",
+        "Swat4.C10.holder_death_unblocks",
+        "Swat4.C10.holder_death_unblocks_writer",
+        "Swat4.C10.blocked_while_held",
+        "Swat4.C10.lockExpire_respects_ttl",
     ],
     "shards": (4, 16),
     "nontrivial": _c10_nontrivial,
@@ -76,6 +81,10 @@ CFG = {
                 "event list (any number of clients, any interleaving, expiry events, queue commands); C10_crash - hence after every prefix, "
                 "i.e. after a client death at any command boundary (a corollary of C10_main: the prefix hypothesis is not needed); lock_ttl - every "
                 "lock cell in every reachable state carries an expiry (true by construction of lockSetNX; tied to the code by facts_lock_ttl); "
+                "LockCell.ttl is decorative in the model (lockExpire does not read it), so 'no crash can block a server forever' is stated with the model's lease-expiry event: "
+                "blocked_while_held (while the cell exists another call's SET NX on that address changes nothing), holder_death_unblocks / holder_death_unblocks_writer (after Ev.expire k, "
+                "whoever held the cell and whether or not it is alive, the next SET NX on k by any client succeeds); the premise that the expiry event occurs (the key has a TTL) is pinned by facts_lock_ttl, not by the model; "
+                "lockExpire_respects_ttl (on reachable stores the model's expiry equals the TTL-respecting lockExpireTTL, under which a cell without TTL is never freed); "
                 "facts_batches_atomic - the regenerated go/ast inventory of every Redis write call site of the three repositories and redislock: each "
                 "batch of the model is the set of pipe.X calls of exactly one TxPipelined closure, the only writes outside such a closure are Guard's "
                 "SetNX and release's Del (atomic steps of their own in the model), no writer uses a bare Pipelined; facts_lock_ttl - one SetNX whose TTL "
